@@ -266,6 +266,6 @@ func init() {
 	Props["C18"] = Prop{Level: "model_checking", Run: func(r *mc.Run, tier string) {
 		r.Rules = append(r.Rules, "BFS over create (3 senders x {A,B,C,bob.jkl} x 2 contents), delete of every existing (from,time) identity by every principal incl. crafted '/'-containing senders, block-senders (address, name, list), transfer of the name, NextBlock; after every event every inbox is read through AllNotificationsByAddress and compared entry by entry with a reference inbox")
 		r.Assumptions = append(r.Assumptions, "identity of a notification is (recipient, sender, time): a second send with identical identity replaces the entry (not enforced as a violation)", "3 principals, 1 name, <=3 block boundaries")
-		r.AddExplore(C18{}, opts(tier, 3, 5, 60, 1200, 200, 3000))
+		r.AddExplore(C18{}, opts(tier, 4, 6, 70, 1500, 200, 3000))
 	}}
 }
